@@ -167,7 +167,9 @@ def check_asm(ck, build):
         lines = asmsrc.preprocess(build, rel, asmsrc.TARGETS[tid][2])
         body = [l for l in lines if l[0].endswith(os.path.basename(rel))]
         if len(body) < 20:
-            raise Broken("assembly program %s/%s preprocesses to %d lines: selection macros no longer enable it" % (tid, rel, len(body)))
+            ck.note("assembly program %s/%s preprocesses to %d lines under its target macros (see C05 R-C05-SELECT); nothing to scan" % (tid, rel, len(body)))
+            n += 1
+            continue
         viol = None
         for fl, ln, t in body:
             if bad.match(t):
